@@ -402,9 +402,10 @@ class CPreProcessor:
             if macro.args is None:  # Macro without arguments
                 expansion = macro.value
             else:  # This macro requires arguments
-                token = self.next_token()
+                token = self.next_token(expand=False)
                 if not token or token.typ != "(":
-                    self.unget_token(token)
+                    if token:
+                        self.unget_token(token)
                     return
                 args = self.gatherargs(macro)
                 expansion = self.substitute_arguments(macro, args)
